@@ -89,27 +89,27 @@ func init() {
 	add := func(id, level string, q, t tierCfg, rule string) {
 		props[id] = &propCfg{Level: level, Quick: q, Thorough: t, Rule: rule, Assume: common}
 	}
-	add("C02", "exploration", tierCfg{12000, 0, 180000}, tierCfg{600000, 2, 1500000},
+	add("C02", "exploration", tierCfg{12000, 0, 180000}, tierCfg{300000, 2, 2400000},
 		"seeded plans: option matrix x input class/length x Write/Flush partition or ReadFrom x Reader concurrency x Read sizes or WriteTo x source fragmentation x schedule x pool mode; distinct = distinct plan hash; non-trivial = spawned a library goroutine, or >=2 writer calls / non-empty stored stream")
-	add("C09", "exploration", tierCfg{12000, 0, 180000}, tierCfg{600000, 2, 1500000},
+	add("C09", "exploration", tierCfg{12000, 0, 180000}, tierCfg{300000, 2, 2400000},
 		"as C02 plus crafted inputs (stored block or content hashing to 0, incompressible blocks, legacy) and CompressingReader output; every emitted frame goes through the strict reference parser; distinct = distinct plan hash; non-trivial as C02")
-	add("C08", "exploration", tierCfg{9000, 5, 180000}, tierCfg{700000, 6, 1500000},
+	add("C08", "exploration", tierCfg{9000, 5, 180000}, tierCfg{200000, 6, 2400000},
 		"seeded plans: 1-2 clients (Writer scripts with Write/Flush/Close/Reset/ReadFrom, Reader scripts with Read/WriteTo/early error) with concurrency >= 2, on-block-done handlers, all scheduler policies and pool modes, sink/source faults in a minority; part of the workers run the race-detector build; distinct = distinct plan hash; non-trivial = spawned >= 1 library goroutine")
-	add("C14", "exploration", tierCfg{3600, 2, 180000}, tierCfg{300000, 4, 1500000},
+	add("C14", "exploration", tierCfg{3600, 2, 180000}, tierCfg{60000, 4, 2400000},
 		"seeded plans: a sequential single-Write reference frame vs variants (concurrency, schedule, Write partition, ReadFrom fragmentation, dirty pool re-issue, concurrent foreign client, handler stalls) and repeated package-level block calls; distinct = distinct plan hash; non-trivial = spawned >= 1 library goroutine or >= 2 writer calls")
-	add("C15", "fault_enumeration", tierCfg{2000, 0, 180000}, tierCfg{60000, 2, 1500000},
+	add("C15", "fault_enumeration", tierCfg{1300, 0, 180000}, tierCfg{16000, 2, 2400000},
 		"per generated base plan the failing call index k is enumerated over every sink (source) call of the fault-free run (all k when <= 64 calls, else first/last 16, around every Flush, 32 sampled) x fail/short x once/forever (source: (0,err)/(n,err)); plus fragmentation-invariance groups; distinct = distinct concrete plan hash (fault point inlined); non-trivial = a fault fired")
-	add("C06", "fault_enumeration", tierCfg{500, 0, 180000}, tierCfg{14000, 2, 1500000},
+	add("C06", "fault_enumeration", tierCfg{500, 0, 180000}, tierCfg{8000, 2, 2400000},
 		"per generated frame every prefix length 1..len-1 (frames <= 2 KiB) or every field boundary +-3 plus 64 sampled offsets, each read with a seeded choice of Reader concurrency, Read/WriteTo, EOF style and fragmentation; distinct = distinct concrete plan hash (cut inlined); non-trivial = the cut fired")
-	add("C05", "exploration", tierCfg{20000, 0, 180000}, tierCfg{1000000, 2, 1500000},
+	add("C05", "exploration", tierCfg{20000, 0, 180000}, tierCfg{1000000, 2, 2400000},
 		"seeded corruptions (field-targeted bit flips/byte substitutions, multi-edit, block delete/duplicate/swap, splices) of valid frames from the library Writer and the reference encoder, read with concurrency 1/2/4 via Read and WriteTo; distinct = distinct plan hash; non-trivial = a corruption was applied")
-	add("C07", "exploration", tierCfg{12000, 0, 180000}, tierCfg{500000, 2, 1500000},
+	add("C07", "exploration", tierCfg{12000, 0, 180000}, tierCfg{500000, 2, 2400000},
 		"seeded hostile streams (random bytes, heavily mutated frames, grammar-built hostile field values, magic words around every reserved value, long repetitions) read with concurrency 1/2/4 via Read and WriteTo, plus the 256 words 0x184D2Axx and the legacy-magic recursion child; distinct = distinct plan hash; non-trivial = non-empty stored stream")
-	add("C16", "exploration", tierCfg{6000, 0, 180000}, tierCfg{250000, 2, 1500000},
+	add("C16", "exploration", tierCfg{6000, 0, 180000}, tierCfg{500000, 2, 2400000},
 		"seeded dependent-block frames from the reference encoder (block lengths from a few bytes to the maximum, cross-block matches, offsets of exactly 65535, raw blocks, checksums) read with every Read-size sequence, WriteTo, fragmentation and ConcurrencyOption 1/2/4; distinct = distinct plan hash; non-trivial = frame has >= 2 blocks")
-	add("C17", "exploration", tierCfg{30000, 2, 180000}, tierCfg{1500000, 3, 1500000},
+	add("C17", "exploration", tierCfg{30000, 2, 180000}, tierCfg{600000, 3, 2400000},
 		"call sequences over the Writer/Reader alphabets: exhaustive to length 3 (quick) / 4 (thorough) with one representative argument per class, seeded random to length 12, sequential and concurrent objects, each checked against the reference lifecycle model and, for Reset, differentially against a fresh object; distinct = distinct plan hash; non-trivial = >= 2 calls")
-	add("C18", "exploration", tierCfg{10000, 0, 180000}, tierCfg{500000, 2, 1500000},
+	add("C18", "exploration", tierCfg{10000, 0, 180000}, tierCfg{800000, 2, 2400000},
 		"seeded CompressingReader runs: input class/length x options x source fragmentation/EOF style/k-th call failure x Read buffer-size sequences (0, 1, 2..8, small, about one block, larger than the frame; adaptive switching when overflow is pending); distinct = distinct plan hash; non-trivial = >= 2 Read calls")
 }
 
@@ -797,6 +797,10 @@ func check(prop, tier string) int {
 		os.MkdirAll(filepath.Join(outRoot, "evidence"), 0o755)
 		b, _ := json.MarshalIndent(ev, "", " ")
 		os.WriteFile(filepath.Join(outRoot, "evidence", prop+".json"), b, 0o644)
+		if tier == "thorough" {
+			os.MkdirAll(filepath.Join(outRoot, "evidence", "thorough"), 0o755)
+			os.WriteFile(filepath.Join(outRoot, "evidence", "thorough", fmt.Sprintf("%s.seed%d.json", prop, int64(seed))), b, 0o644)
+		}
 	} else {
 		fmt.Fprintf(os.Stderr, "HARNESS: nothing was executed (execs=%d plans=%d)\n", total.Execs, len(plans))
 		harness++
@@ -816,10 +820,17 @@ func check(prop, tier string) int {
 }
 
 var expectedProbes = map[string][]string{
-	"C08": {"lib.goroutines", "pool.reissue", "sink.fail", "src.err0", "corrupt.flip", "reader.abandoned"},
-	"C15": {"sink.fail", "sink.short", "src.err0", "src.errn", "src.zero", "src.eofdata"},
-	"C06": {"cut"},
-	"C05": {"corrupt.flip", "corrupt.set", "corrupt.struct", "accepted.equal", "rejected"},
+	"C02": {"lib.goroutines", "decode.direct", "decode.buffered", "flush.barrier.checked", "legacy", "src.zero", "src.eofdata"},
+	"C05": {"corrupt.flip", "corrupt.set", "corrupt.struct", "accepted.equal", "rejected", "header.anomaly"},
+	"C06": {"cut", "legacy", "skippable.skipped"},
+	"C07": {"corrupt.flip", "corrupt.struct", "legacy", "skippable.skipped", "rejected"},
+	"C08": {"lib.goroutines", "pool.reissue", "sink.fail", "src.err0", "corrupt.flip", "reader.abandoned", "queue.full.at.enqueue", "sentinel.behind.pending", "handler.after.return"},
+	"C09": {"raw.block.emitted", "legacy", "flush.barrier.checked"},
+	"C14": {"lib.goroutines", "pool.reissue"},
+	"C15": {"sink.fail", "sink.short", "sink.forever", "src.err0", "src.errn", "src.zero", "src.eofdata"},
+	"C16": {"fallback.sequential", "offset.65535", "cross.block.match", "decode.direct", "decode.buffered"},
+	"C17": {"flush.barrier.checked", "reset.equiv.checked", "misuse.call", "lib.goroutines"},
+	"C18": {"cr.overflow.gt", "cr.overflow.lt", "cr.zero.len.read", "src.err0", "src.errn", "src.eofdata"},
 }
 
 func nonZero(m map[string]int64) map[string]int64 {
